@@ -531,6 +531,10 @@ class World(WsWorld):
             st0 = len(e.states)
             w0 = e.t.written_total
             lg = run.nevents
+            facts = ("wasClean", "wasNotCleanReason", "droppedByMe", "closedByMe", "remoteCloseCode", "remoteCloseReason",
+                     "localCloseCode", "localCloseReason", "wasMaxFramePayloadSizeExceeded", "wasMaxMessagePayloadSizeExceeded")
+            facts0 = [repr(getattr(e.p, k, None)) for k in facts]
+            calls0 = len(getattr(e.t, "calls_after_gone", []))
             t_end = self.now() + 1000.0
             n = 0
             while n < 200:
@@ -549,6 +553,13 @@ class World(WsWorld):
                 run.violate("C17.inert-after-close", "state-change-after-close", "")
             if e.writes_after_onclose:
                 run.violate("C17.inert-after-close", "write-after-close", "")
+            facts1 = [repr(getattr(e.p, k, None)) for k in facts]
+            if facts1 != facts0 and e.closed_cb is not None:
+                changed = [k for k, a, b in zip(facts, facts0, facts1) if a != b]
+                run.violate("C17.inert-after-close", "close-facts-changed-after-close:" + ",".join(changed), "%r -> %r" % (facts0, facts1))
+            calls = getattr(e.t, "calls_after_gone", [])[calls0:]
+            if calls and e.closed_cb is not None:
+                run.violate("C17.inert-after-close", "transport-call-after-close:" + calls[0], repr(calls[:4]))
             if n:
                 run.probe("timers-fired-after-close", n)
             run.probe("inert-checked")
